@@ -171,11 +171,30 @@ CORE_ATOMS = [
 ]
 
 
+def _mapping_form(point, i):
+    """Tag and field sets are Mappings: every seventh point of the universe carries them as a read-only proxy, a
+    ChainMap or an OrderedDict instead of a dict (validate_tags / validate_fields accept any Mapping)."""
+    import collections
+    import types
+
+    form = i % 21
+    if form == 3:
+        point.tags = types.MappingProxyType(dict(point.tags))
+        point.fields = types.MappingProxyType(dict(point.fields))
+    elif form == 10:
+        point.tags = collections.ChainMap(dict(point.tags))
+        point.fields = collections.ChainMap({}, dict(point.fields))
+    elif form == 17:
+        point.tags = collections.OrderedDict(point.tags)
+        point.fields = collections.OrderedDict(point.fields)
+    return point
+
+
 class Evaluator:
     def __init__(self, res, pts):
         self.res = res
         self.mpts = pts
-        self.rpts = [p.to_real() for p in pts]
+        self.rpts = [_mapping_form(p.to_real(), i) for i, p in enumerate(pts)]
         self.npts = len(pts)
 
     def check(self, ast, origin):
